@@ -41,5 +41,6 @@ a2 = np.arange(40.0).reshape(20, 2)
 s2 = lambda: da.sliding_window_view(da.from_array(a2, chunks=(3, 2)), window_shape=5, axis=0).sum(axis=-1)  # noqa: E731
 n2 = sw(a2, 5, axis=0).sum(axis=-1)
 check("broadcast_to", lambda: da.broadcast_to(s2(), (2, 16, 2)).compute(), np.broadcast_to(n2, (2, 16, 2)))
+check("blockwise adjust_chunks tuple", lambda: da.blockwise(lambda b: np.repeat(b, 2), "i", s(), "i", dtype=s().dtype, adjust_chunks={"i": tuple(2 * c for c in s().chunks[0])}).compute(), np.repeat(ns, 2))
 check("tsqr R", lambda: abs(da.linalg.tsqr(s()[:, None].astype(float))[1].compute()), abs(np.linalg.qr(ns[:, None].astype(float))[1]))
 sys.exit(1 if bad else 0)
